@@ -240,7 +240,11 @@ def _gen_seq(rng, n_ops):
             tgt = btgt + dsrc
             if tgt:
                 x = rng.pick(tgt)
-                if live and rng.chance(0.7):
+                cur = s.val(x)
+                nxt = s.next[cur] if (cur is not None and cur >= 0 and s.alive[cur]) else -1
+                if nxt is not None and nxt >= 0 and s.alive[nxt] and rng.chance(0.5):
+                    emit("raw", x, nxt)       # chain walk through a raw pointer: x = x->next.ptr
+                elif live and rng.chance(0.7):
                     emit("raw", x, rng.pick(live))
                 else:
                     emit("null", x)
